@@ -42,6 +42,21 @@ unsafe fn mk_vec8(k: usize, len: usize, cap: usize, vt: u8) -> AnyVec<dyn None, 
     })
 }
 
+/// Observing twin of `crate::assert_types_equal`: at the moment the type check refuses a value the vector
+/// is provably unchanged (length, capacity, no storage effect). Kani has no unwinding, so this is where
+/// "after push / insert the vector is unchanged" is asserted.
+pub static mut TSNAP: (bool, usize, usize) = (false, 0, 0);
+pub fn obs_assert_types_equal(t1: TypeId, t2: TypeId) {
+    if t1 != t2 {
+        let st = unsafe { &*core::ptr::addr_of!(TSNAP) };
+        if st.0 {
+            kani::assert(cur_len(0) == st.1 && g().v[0].cap == st.2 && g().n_moves == 0 && g().total_destroyed == 0 && g().v[0].cap_changes == 0,
+                "wrong runtime type: the vector is unchanged when the type check refuses the value");
+        }
+        panic!("Type mismatch!");
+    }
+}
+
 /// push / insert of a raw value of a different runtime type: expected panic, vector untouched
 fn admit_mismatch_raw(push: bool) {
     ghost_init();
@@ -56,6 +71,7 @@ fn admit_mismatch_raw(push: bool) {
     let index = any_narrow();
     kani::assume(index <= len);
     g().armed = true;
+    unsafe { *core::ptr::addr_of_mut!(TSNAP) = (true, len, cap); }
     if push { v.push(val) } else { v.insert(index, val) }
     kani::cover!(true, "RETURNED");
 }
@@ -71,6 +87,7 @@ fn admit_mismatch_wrapper<O: 'static>(push: bool, mk: fn() -> O) {
     let index = any_narrow();
     kani::assume(index <= len);
     g().armed = true;
+    unsafe { *core::ptr::addr_of_mut!(TSNAP) = (true, len, cap); }
     let val = AnyValueWrapper::new(mk());
     if push { v.push(val) } else { v.insert(index, val) }
     kani::cover!(true, "RETURNED");
